@@ -44,6 +44,7 @@ type FuncContract struct {
 	pkg       string
 	key       string // "(*socket).SendMsg" or "NewMessage"
 	requires  []specLine
+	assumes   []specLine // entry assumptions NOT checked at call sites (listed as assumptions)
 	ensures   []specLine
 	holds     []string // lock paths held on entry and exit
 	acquires  []string
@@ -55,6 +56,7 @@ type FuncContract struct {
 	loopMod   map[int][]string
 	at        map[string][]specLine // site label -> assertions
 	atAssume  map[string][]specLine
+	atBefore  map[string][]specLine
 	takes     map[string]bool
 	borrows   map[string]bool
 	retNullable bool
@@ -87,10 +89,11 @@ type Annotations struct {
 	byLock  map[string][]guardedField
 	errs    []string
 	lemmas  []specLine
+	immutableHV map[string]bool
 }
 
 func newAnnotations() *Annotations {
-	return &Annotations{structs: map[string]*StructAnn{}, funcs: map[string]*FuncContract{}, ifaces: map[string]*FuncContract{}, byLock: map[string][]guardedField{}}
+	return &Annotations{structs: map[string]*StructAnn{}, funcs: map[string]*FuncContract{}, ifaces: map[string]*FuncContract{}, byLock: map[string][]guardedField{}, immutableHV: map[string]bool{}}
 }
 
 func (a *Annotations) isNullable(typeKey, field string) bool {
@@ -155,7 +158,7 @@ func (g *Gen) contractKey(f *ssa.Function) string {
 }
 
 func (g *Gen) ifaceContract(cc *ssa.CallCommon) *FuncContract {
-	n, ok := cc.Value.Type().(*types.Named)
+	n, ok := types.Unalias(cc.Value.Type()).(*types.Named)
 	if !ok {
 		return nil
 	}
@@ -282,7 +285,7 @@ func (a *Annotations) parseFile(path, pkg string) error {
 }
 
 func newFuncContract(pkg, key, file string, line int) *FuncContract {
-	return &FuncContract{pkg: pkg, key: key, nullable: map[string]bool{}, loopInv: map[int][]specLine{}, loopMod: map[int][]string{}, at: map[string][]specLine{}, atAssume: map[string][]specLine{}, takes: map[string]bool{}, borrows: map[string]bool{}, file: file, line: line}
+	return &FuncContract{pkg: pkg, key: key, nullable: map[string]bool{}, loopInv: map[int][]specLine{}, loopMod: map[int][]string{}, at: map[string][]specLine{}, atAssume: map[string][]specLine{}, atBefore: map[string][]specLine{}, takes: map[string]bool{}, borrows: map[string]bool{}, file: file, line: line}
 }
 
 func splitWord(s string) (string, string) {
@@ -348,6 +351,8 @@ func (a *Annotations) funcClause(cf *FuncContract, word, rest string, sl specLin
 	switch strings.TrimSuffix(word, ":") {
 	case "requires":
 		cf.requires = append(cf.requires, sl)
+	case "assumes":
+		cf.assumes = append(cf.assumes, sl)
 	case "ensures":
 		cf.ensures = append(cf.ensures, sl)
 	case "holds":
@@ -395,6 +400,16 @@ func (a *Annotations) funcClause(cf *FuncContract, word, rest string, sl specLin
 		default:
 			return fmt.Errorf("at clause %q", kw)
 		}
+	case "before":
+		site, r2 := splitWord(rest)
+		kw, r3 := splitWord(r2)
+		sl.text = r3
+		if kw != "assert" {
+			return fmt.Errorf("before <site> assert E")
+		}
+		cf.atBefore[site] = append(cf.atBefore[site], sl)
+	case "nolockbalance":
+		cf.nolockbalance = true
 	case "takes":
 		for _, p := range strings.Fields(rest) {
 			cf.takes[p] = true
@@ -445,6 +460,11 @@ func (g *Gen) resolveAnnotations() {
 			if !fieldNames[f] {
 				a.errs = append(a.errs, fmt.Sprintf("%s:%d: struct %s has no field %s", sa.file, sa.line, sa.key, f))
 				continue
+			}
+			if fa.kind == "immutable" {
+				if _, isSt := g.fieldType(st, f).Underlying().(*types.Struct); !isSt {
+					a.immutableHV["F:"+g.typeKey(T)+"."+f] = true
+				}
 			}
 			if fa.kind != "guarded" {
 				continue
@@ -502,7 +522,16 @@ func (g *Gen) resolveLockPath(T types.Type, path string) (key string, own bool) 
 
 func deref(t types.Type) types.Type {
 	if p, ok := t.Underlying().(*types.Pointer); ok {
-		return p.Elem()
+		return types.Unalias(p.Elem())
 	}
-	return t
+	return types.Unalias(t)
+}
+
+func (g *Gen) fieldType(st *types.Struct, name string) types.Type {
+	for i := 0; i < st.NumFields(); i++ {
+		if st.Field(i).Name() == name {
+			return st.Field(i).Type()
+		}
+	}
+	return types.Typ[types.Int]
 }
